@@ -374,6 +374,11 @@ func runFiles(op map[string]any) (any, error) {
 			}
 			continue
 		}
+		if f, ok := act["out"].(string); ok {
+			// an output request between two inputs (its result, an error included, is dropped): a pure observation
+			_, _ = p.Output(f)
+			continue
+		}
 		if r, ok := act["tryroot"].(string); ok {
 			// a caller that carries on after a refused SetRoot: the root set before must still confine every read
 			_ = p.SetRoot(r)
